@@ -101,7 +101,18 @@ func (o *c17Oracle) AfterAdmin(c *tableCtx, op *Op, pan any, applied bool) *Viol
 		c.st.C("op_reject")
 		c.st.C("op_reject_" + strings.SplitN(o.why, " ", 2)[0])
 		if pan == nil {
-			return mk("must-reject", "accepted:"+strings.SplitN(o.why, " ", 2)[0], "accepted although it must be rejected ("+o.why+")")
+			sig := "accepted:" + strings.SplitN(o.why, " ", 2)[0]
+			if strings.HasPrefix(o.why, "identical") {
+				// the ambiguity check walks the tree: say whether routes had been removed before (split nodes stay split)
+				sig += ":add-only-history"
+				for i := 0; i < c.step; i++ {
+					switch c.w.Ops[i].K {
+					case "remove", "clean", "pclean", "rclean":
+						sig = "accepted:identical:after-removal"
+					}
+				}
+			}
+			return mk("must-reject", sig, "accepted although it must be rejected ("+o.why+")")
 		}
 	case +1:
 		if pan != nil {
